@@ -292,6 +292,11 @@ def enumerate_cases(tier):
         yield {"kind": "diag", "n": 2, "steps": prep + [{"t": "m", "kind": "arb", "w": 0, "reset": True, "plane": plane, "angle": 0.7}]}
         yield {"kind": "diag", "n": 2, "steps": prep + [{"t": "m", "kind": "z", "w": 1, "reset": True},
                                                          {"t": "m", "kind": "cond", "w": 0, "reset": False, "on": 0, "a": ["arb", plane, 0.7], "b": ["arb", plane, -1.3]}]}
+        # the same conditional pair with reset: the wire is reused afterwards, so a lost reset changes the later history
+        yield {"kind": "diag", "n": 2, "steps": prep + [{"t": "m", "kind": "z", "w": 1, "reset": True},
+                                                         {"t": "m", "kind": "cond", "w": 0, "reset": True, "on": 0, "a": ["arb", plane, 0.7], "b": ["arb", plane, -1.3]},
+                                                         {"t": "g", "op": _g("RY", [0], 0.8)}, {"t": "g", "op": _g("CNOT", [0, 1])},
+                                                         {"t": "m", "kind": "z", "w": 0, "reset": True}]}
     # single-gate patterns behind a generic RotXZX, every history (8 measurements = 256 histories)
     for diag in (False, True):
         for gate in (_g("Hadamard", [0]), _g("S", [0]), _g("RZ", [0], 0.83), _g("RotXZX", [0], 0.41, -1.2, 2.2)):
